@@ -1613,7 +1613,11 @@ impl<'a> Sim<'a> {
 				}
 				let mut tip = trunk.tip;
 				let mut fat = fat_b;
-				for _ in 0..(la + 1) {
+				// the header-only fork always has more work than the body chain (2x difficulty per block) and
+				// ends one block above, level with, or one block below the body head
+				let lb = la + 1 - sp.below(3);
+				self.run.count(&format!("pool_header_fork_setups.header_fork_height_minus_body_height={}", lb as i64 - la as i64), 1);
+				for _ in 0..lb {
 					let h = self.height(&tip) + 1;
 					let mut txs = vec![];
 					if fat > 0 {
